@@ -253,6 +253,9 @@ func run(sc scenario, seed uint64, rep *hx.Report) (lines, expect []string, skip
 	sniproxy.VerifSetHook(rec.hook)
 	defer sniproxy.VerifSetHook(nil)
 	srv := sniproxy.NewServer(&sniproxy.ServerConfig{OnConnect: rec.onConnect, OnDisconnect: rec.onDisconnect,
+		// endpoints of name 1 use side connections, and the token provider is down: every front dial through
+		// them fails at once — which says nothing about whether the endpoint is still connected
+		SideToken: func(string) (string, error) { return "", fmt.Errorf("token provider down") },
 		Lookup: func(domain string) (*sniproxy.Dest, error) {
 			return &sniproxy.Dest{Name: epPrefix + strings.TrimSuffix(domain, ".test")}, nil
 		}})
@@ -345,8 +348,12 @@ func run(sc scenario, seed uint64, rep *hx.Report) (lines, expect []string, skip
 			}
 			td := &trackDialer{}
 			dctx, dcancel := context.WithTimeout(ctx, 15*time.Second)
+			var topt *sniproxy.Options
+			if kvs(ws, "name") == "1" {
+				topt = &sniproxy.Options{Siding: true}
+			}
 			ep, err := sniproxy.Dial(dctx, &sniproxy.StaticRouter{Host: ts.Listener.Addr().String()},
-				&sniproxy.DialOption{Path: "/" + kvs(ws, "name"), WithoutTLS: true,
+				&sniproxy.DialOption{Path: "/" + kvs(ws, "name"), WithoutTLS: true, TunnelOptions: topt,
 					Dialer: &websocket.Dialer{NetDialContext: td.dial}})
 			dcancel()
 			if err != nil {
